@@ -5,8 +5,10 @@ CONSTANTS
   PT0MC <- NoPT
   PPagesMC <- NoPP
   MaxReq = 0
+  MaxHost = 0
+  ReleaseSrcEarly = FALSE
   ReplySlot = "overwrite"
-INVARIANTS NoReplyDropped ContentsPreserved TableMapsToDestination NoAlias Allocated OthersUnchanged CopyOnlyWhenQuiet OnePageAtATime HandshakeOrder ReplyOnce
+INVARIANTS NoReplyDropped ContentsPreserved TableMapsToDestination NoAlias HeldApart OthersUnchanged CopyOnlyWhenQuiet OnePageAtATime HandshakeOrder ReplyOnce
 CONSTRAINT Mark
 POSTCONDITION Accepted
 CHECK_DEADLOCK FALSE
